@@ -303,7 +303,7 @@ class SymB:
         arguments): a fresh variable '<fname>#k' per distinct argument, with congruence constraints"""
         c = sc.cur()
         xs = x if isinstance(x, (list, tuple)) else [x]
-        args = [sc.simp(sc._lift(t).e) for t in xs]
+        args = [sc.canon(sc._lift(t).e) for t in xs]
         key = (fname, tuple(a.sexpr() for a in args))
         tab = c.data.setdefault("ufun", {})
         cnt = c.data.setdefault("ufun_calls", {})
